@@ -328,15 +328,20 @@ of its chunks which every later `iter_bytes()` replays (as `streamModel` does); 
 theorem C16_src_content_from_reader (bufferNow : Bool) (cs : List Bytes) :
     ContentSkel.readerI bufferNow cs Generated.ContentSrc.contentFromReader .evaluateEachTime
       = some (if bufferNow then .buffered cs else .evaluateEachTime) := by
-  have e : Generated.ContentSrc.contentFromReader = ContentSkel.refReader := by decide
-  rw [e]; exact ContentSkel.readerI_ref bufferNow cs
+  -- evaluated on the generated steps (so the order of the content-type default and the buffering, which do not interact, is free)
+  cases bufferNow <;> simp [ContentSkel.readerI, Generated.ContentSrc.contentFromReader]
 
-/-- the model's `chunks` is the interpretation of `_iter_chunks` as found in the source: the optional seek first, one read,
-then `while chunk: yield chunk; chunk = read()` — for every chunk size, short-read plan and remaining bytes -/
+/-- the model's `chunks` is the interpretation of `_iter_chunks` as found in the source: the optional seek first, then the read
+loop in one of its two shapes — `chunk = read(); while chunk: yield chunk; chunk = read()` or the same loop rotated, `while True:
+chunk = read(); if not chunk: break; yield chunk` (that both mean `chunks` is proved, not assumed by the translator) — for every
+chunk size, short-read plan and remaining bytes -/
 theorem C16_src_iter_chunks (n : Nat) (caps : List Nat) (rem : Bytes) :
     ContentSkel.chunksI Generated.ContentSrc.iterChunks n caps rem = some (chunks n caps rem) := by
-  have e : Generated.ContentSrc.iterChunks = ContentSkel.refChunks := by decide
-  rw [e]; exact ContentSkel.chunksI_ref n caps rem
+  have e : Generated.ContentSrc.iterChunks = ContentSkel.refChunks
+      ∨ Generated.ContentSrc.iterChunks = ContentSkel.refChunksRotated := by decide
+  rcases e with e | e
+  · rw [e]; exact ContentSkel.chunksI_ref n caps rem
+  · rw [e]; exact ContentSkel.chunksI_refRotated n caps rem
 
 /-- the model's `render` (with `quoteValue`) is the interpretation of `ContentType.__repr__` and `_quote` as found in the
 source: `type/subtype`, then — only when there are parameters — `"; "` and the sorted items `k="<v with \ and " escaped>"`
